@@ -279,7 +279,11 @@ func (b *batch) render() *stageFailure {
 		if len(progs) == 0 {
 			return nil
 		}
-		src, err := renderFile(mode, "s", st, progs, b.opts.extraS)
+		extra := b.opts.extraS
+		if file == "gv.go" {
+			extra = nil
+		}
+		src, err := renderFile(mode, "s", st, progs, extra)
 		if err != nil {
 			_ = os.WriteFile(filepath.Join(b.dir, dir, file+".broken"), []byte(src), 0o644)
 			return &stageFailure{Stage: "render", Diag: err.Error()}
